@@ -1,18 +1,86 @@
-(* C15 -- browser-side patch and decision application agree with the Python side.
-   Statements only; models in Ts/*.v, proofs in Ts/*Proofs.v. *)
+(* C15 -- browser-side (TypeScript) patch and decision application agree with the Python side.
+   Statements only.  Models: Ts/TsSplit.v, Ts/TsPatch.v, Ts/TsDecisions.v, Diff/Patch.v, Base/PyStr.v, Gen/Actions.v
+   (regenerated from /repo on every run).  Proofs: Ts/TsSplitProofs.v, Ts/TsStringProofs.v, Ts/TsPatchProofs.v,
+   Ts/TsDecisionsProofs.v. *)
 From Coq Require Import List NArith.
+From NB Require Import Base.Res.
 From NB Require Import Base.Json.
 From NB Require Import Base.PyStr.
+From NB Require Import Diff.DiffFormat.
+From NB Require Import Diff.Patch.
+From NB Require Import Diff.Wf.
+From NB Require Import Diff.Codec.
+From NB Require Import Gen.Actions.
 From NB Require Import Ts.TsSplit.
+From NB Require Import Ts.TsPatch.
+From NB Require Import Ts.TsDecisions.
 From NB Require Import Ts.TsSplitProofs.
+From NB Require Import Ts.TsPatchProofs.
+From NB Require Import Ts.TsDecisionsProofs.
 Import ListNotations.
+
+(* ---- patch: for every well-formed diff of a document whose strings use only LF / CR / CRLF as line separators
+        (JavaScript strings being code-unit lists: BMP text), the TypeScript patcher returns exactly what the Python
+        patcher returns -- objects, arrays, multi-line strings with line- and character-level entries, nested. ---- *)
+Theorem ts_patch_agrees :
+  forall n a d, wfj a = true -> seps_ok a = true -> wf_diff n a d = true -> ts_patch n a d = patch n a d.
+Proof. exact TsPatchProofs.ts_patch_agrees. Qed.
+Print Assumptions ts_patch_agrees.
 
 Theorem splitlines_ts_agrees :
   forall s, only_nl_cr s = true -> drop_last_empty (ts_split_lines s) = splitlines s.
 Proof. exact TsSplitProofs.splitlines_ts_agrees. Qed.
 Print Assumptions splitlines_ts_agrees.
 
+(* ---- vocabulary (finite; lists regenerated from the sources): holds before and after the repair of F4 ---- *)
+Theorem py_emitted_accepted_except_take_max :
+  forall a, In a py_emitted -> a = take_max \/ ts_validate_action a = Ok a.
+Proof. exact TsDecisionsProofs.py_emitted_accepted_except_take_max. Qed.
+Print Assumptions py_emitted_accepted_except_take_max.
+
+Theorem ts_accepted_resolved : forall a, In a ts_accepted -> ts_resolves a = true.
+Proof. exact TsDecisionsProofs.ts_accepted_resolved. Qed.
+Print Assumptions ts_accepted_resolved.
+
+Theorem py_emitted_in_schema_except_take_max :
+  forall a, In a py_emitted -> a = take_max \/ In a schema_actions.
+Proof. exact TsDecisionsProofs.py_emitted_in_schema_except_take_max. Qed.
+Print Assumptions py_emitted_in_schema_except_take_max.
+
+(* ======== BLOCK F4 (known finding "ts-rejects-emitted-action:take_max") ========
+   True of the code as it is.  Once take_max is added to validateAction / resolveAction in decisions.ts and to
+   merge_format.schema.json, Gen/Actions.v changes, this theorem fails, and the block is to be replaced by
+     Theorem py_emitted_accepted : forall a, In a py_emitted -> ts_validate_action a = Ok a.
+     Proof. exact (TsDecisionsProofs.py_emitted_accepted_if_take_max_accepted eq_refl). Qed. *)
+Theorem take_max_refuted :
+  In take_max py_emitted /\ ts_validate_action take_max = Err RuntimeError /\ ~ In take_max schema_actions.
+Proof. exact TsDecisionsProofs.take_max_refuted. Qed.
+Print Assumptions take_max_refuted.
+(* ======== END BLOCK F4 ======== *)
+
+(* ======== BLOCK F7 (known finding "...base-has-line-separator-js-splits-differently") ========
+   The separator hypothesis of ts_patch_agrees cannot be dropped: for each of VT, FF, FS, GS, RS, NEL, U+2028, U+2029
+   the line tables differ and a well-formed diff is applied differently. *)
 Theorem splitlines_ts_refuted :
   forall c, In c exotic_list -> drop_last_empty (ts_split_lines [97; c; 98]%N) <> splitlines [97; c; 98]%N.
 Proof. exact TsSplitProofs.splitlines_ts_refuted. Qed.
 Print Assumptions splitlines_ts_refuted.
+
+Theorem ts_patch_refuted :
+  forall c, In c exotic_list ->
+    wfj (sep_witness_base c) = true /\ wf_diff 3 (sep_witness_base c) sep_witness_diff = true /\
+    ts_patch 3 (sep_witness_base c) sep_witness_diff <> patch 3 (sep_witness_base c) sep_witness_diff.
+Proof. exact TsPatchProofs.ts_patch_refuted. Qed.
+Print Assumptions ts_patch_refuted.
+(* ======== END BLOCK F7 ======== *)
+
+(* ======== BLOCK UTF-16 (known finding "...astral-code-point-before-char-level-edit") ========
+   Nor can the code-unit reading: character-level keys are code-point offsets on the Python side. *)
+Theorem ts_patch_astral_refuted :
+  exists s d r,
+    only_nl_cr s = true /\ wf_diff 3 (JStr s) d = true /\
+    patch 3 (JStr s) d = Ok (JStr r) /\
+    ts_patch 3 (JStr (utf16_enc s)) d <> Ok (JStr (utf16_enc r)).
+Proof. exact TsPatchProofs.ts_patch_astral_refuted. Qed.
+Print Assumptions ts_patch_astral_refuted.
+(* ======== END BLOCK UTF-16 ======== *)
